@@ -28,8 +28,9 @@ TRUSTED = ['command resolution is modelled for plugins without sub-command group
            'str.lower() enters the model as a Section variable (theorems hold for any fold function); the extracted instance is the ASCII fold '
            'and the generators use ASCII names',
            'ircutils.strEqual(name, "Owner") (rfc1459 fold) is modelled by the same fold as getCallback (they agree on every name that folds to "owner")',
-           'plugin.loadPluginModule file lookup (os.listdir + (?i) regex, importlib) is reduced to: unknown name / ImportError / other exception / module; '
-           'names with regex metacharacters and two plugin directories differing only in case are outside the generators',
+           'plugin.loadPluginModule: the name lookup is modelled (exact directory entry, else first case-insensitive full match of the escaped name in '
+           'os.listdir order; the world is given in that order and contains every synthetic plugin directory); two plugin directories differing only in '
+           'case are outside the generators; the import itself is reduced to ImportError / other exception / module',
            'module-level reload() hooks of a plugin module and the supybot.plugins.<Name> flag are not modelled',
            'sys.modules is not modelled: since fix C20.F24 Owner.reload reads it with .get() and only to find an optional module-level reload() hook',
            'T20: shapes of Owner.callPrecedence, Misc.callPrecedence, IrcCallback.callPrecedence asserts + firewall default, the strEqual guards and the '
@@ -53,8 +54,10 @@ LEVEL_NOTE = ('Trusted: Coq kernel, gen_tables/t20.py, extraction + OCaml driver
 TECHNIQUE = 'Coq proof (loop invariant over the layered extraction, for all oracles; induction over histories) + regenerated tables + extracted-model differential correspondence'
 EXPLANATION = 'C20: model of the callback list (src/irclib.py, Owner plugin); theorems in coq/C20/Props.v'
 
-SYN_PLUGINS = ['Alpha', 'Beta', 'Gamma', 'Delta', 'Epsi', 'Zeta']
-BUNDLED = ['Owner', 'Misc', 'Config', 'Utilities', 'Dunno', 'Karma']
+# prefix families (Al/Alpha, Qa/Qabx, Ga/Gamma, Ze/Zeta): a name lookup that is not a FULL match would confuse them
+SYN_PLUGINS = ['Alpha', 'Beta', 'Gamma', 'Delta', 'Epsi', 'Zeta', 'Al', 'Qa', 'Qabx', 'Ga', 'Ze']
+SHORT_PLUGINS = ['Al', 'Qa', 'Ga', 'Ze']
+BUNDLED = ['Owner', 'Misc', 'Config', 'Utilities', 'Dunno', 'Karma', 'Plugin']   # (Plugin is a prefix of the bundled PluginDownloader)
 _env = {}
 
 
@@ -67,16 +70,22 @@ def env():
     import supybot.conf as conf, supybot.irclib as irclib, supybot.ircmsgs as ircmsgs, supybot.plugin as plugin
     import supybot.ircdb as ircdb, supybot.world as world, supybot.log as log
     assert not world.testing and not log.testing
+    # two synthetic plugin directories: loadPluginModule lists the configured directories in order, so the short member of
+    # every prefix family (second directory) is listed AFTER the long one (first directory) whatever the file system does
     pd = os.path.join(d, 'plugins20')
+    pd2 = os.path.join(d, 'plugins20b')
     os.makedirs(pd, exist_ok=True)
-    conf.supybot.directories.plugins.setValue([pd, os.path.join(boot.REPO, 'plugins')])
+    os.makedirs(pd2, exist_ok=True)
+    conf.supybot.directories.plugins.setValue([pd, pd2, os.path.join(boot.REPO, 'plugins')])
     conf.supybot.abuse.flood.command.setValue(False)
     conf.supybot.abuse.flood.command.invalid.setValue(False)
+    pdir = {}
     for n in SYN_PLUGINS:
-        os.makedirs(os.path.join(pd, n), exist_ok=True)
-        with open(os.path.join(pd, n, '__init__.py'), 'w') as f:
+        pdir[n] = os.path.join(pd2 if n in SHORT_PLUGINS else pd, n)
+        os.makedirs(pdir[n], exist_ok=True)
+        with open(os.path.join(pdir[n], '__init__.py'), 'w') as f:
             f.write(PLUGIN_SRC % {'n': n, 'l': n.lower()})
-        with open(os.path.join(pd, n, 'ctl.json'), 'w') as f:
+        with open(os.path.join(pdir[n], 'ctl.json'), 'w') as f:
             json.dump({}, f)
     # two networks, as a bot with two configured networks has them: both Irc objects are built with the default
     # `callbacks=_callbacks`, i.e. they share the ONE module-level dispatcher list
@@ -106,7 +115,7 @@ def env():
     ircdb.users.setUser(u)
     om = plugin.loadPluginModule('Owner')
     mm = plugin.loadPluginModule('Misc')
-    _env.update(dict(dir=d, pd=pd, irc=irc, ircs=[irc, irc2], mk_irc=mk_irc, world=world, irclib=irclib, ircmsgs=ircmsgs, plugin=plugin, conf=conf,
+    _env.update(dict(dir=d, pd=pd, pd2=pd2, pdir=pdir, irc=irc, ircs=[irc, irc2], mk_irc=mk_irc, world=world, irclib=irclib, ircmsgs=ircmsgs, plugin=plugin, conf=conf,
                      owner_cp=om.Class.__dict__['callPrecedence'], misc_cp=mm.Class.__dict__['callPrecedence'],
                      modules={'Owner': om, 'Misc': mm}))
     return _env
@@ -146,7 +155,7 @@ Class = %(n)s
 
 
 def set_ctl(e, name, **kw):
-    with open(os.path.join(e['pd'], name, 'ctl.json'), 'w') as f:
+    with open(os.path.join(e['pdir'][name], 'ctl.json'), 'w') as f:
         json.dump(kw, f)
 
 
@@ -216,9 +225,6 @@ def impl_step(e, world, op, h=0):
         return ['ok', 0]
     if k == 'boot':
         try:
-            sp = spec_of(world, op[1])
-            if sp is not None and sp[0] in SYN_PLUGINS:
-                set_ctl(e, sp[0], cmds=sp[4], before=sp[2], after=sp[3])
             plugin.loadPluginClass(irc, plugin.loadPluginModule(op[1]))
             return ['ok', 0]
         except Exception as ex:
@@ -226,19 +232,23 @@ def impl_step(e, world, op, h=0):
     name = op[1]
     sp = spec_of(world, name)
     syn = sp is not None and sp[0] in SYN_PLUGINS
-    if k == 'load':
-        if syn:
-            set_ctl(e, sp[0], cmds=sp[4], before=sp[2], after=sp[3], imp=op[2], init=op[3])
-        return reply_class(say(e, 'load ' + name, h))
-    if k == 'unload':
-        if syn:
-            set_ctl(e, sp[0], cmds=sp[4], before=sp[2], after=sp[3], die=op[2])
-        return reply_class(say(e, 'unload ' + name, h))
-    if k == 'reload':
-        if syn:
-            set_ctl(e, sp[0], cmds=sp[4], before=sp[2], after=sp[3], imp=op[2], init=op[3], die=op[4])
-        return reply_class(say(e, 'reload ' + name, h))
-    raise ValueError(op)
+    flags = {'load': lambda: dict(imp=op[2], init=op[3]), 'unload': lambda: dict(die=op[2]),
+             'reload': lambda: dict(imp=op[2], init=op[3], die=op[4])}[k]()
+    if syn and any(flags.values()):
+        set_ctl(e, sp[0], cmds=sp[4], before=sp[2], after=sp[3], **flags)     # inject the failure into the named plugin
+    try:
+        return reply_class(say(e, k + ' ' + name, h))
+    finally:
+        if syn and any(flags.values()):
+            set_ctl(e, sp[0], cmds=sp[4], before=sp[2], after=sp[3])
+
+
+def base_ctl(e, world):
+    """every synthetic plugin of the history gets its constraints and commands on disk before the first operation
+    (whatever name an operation later resolves to, the plugin imported is the one the world describes)"""
+    for sp in world:
+        if sp[0] in SYN_PLUGINS:
+            set_ctl(e, sp[0], cmds=sp[4], before=sp[2], after=sp[3])
 
 
 def drop_late(e):
@@ -261,6 +271,7 @@ def reset(e):
 def impl_run(e, inp, upto=None):
     """-> list of (reply, names-after) per operation"""
     reset(e)
+    base_ctl(e, inp['world'])
     out = []
     via = inp.get('via') or [0] * len(inp['ops'])
     for op, h in list(zip(inp['ops'], via))[:upto]:
@@ -461,6 +472,7 @@ def oracle_run(e, inp, late=True):
     """run the history on the implementation (operation i through Irc object via[i]); -> (trace, failure text or None);
     e['last_obs'] = (cfg, observations), e['last_views'] = callback names per Irc object (a late-created one included)"""
     reset(e)
+    base_ctl(e, inp['world'])
     e['last_obs'] = e['last_views'] = None
     full_cfg = apply_cfg(e, inp)
     trace, want = [], set()
@@ -647,8 +659,8 @@ def gen_syn(rng):
 
 
 def gen_live(rng, bundled_ok):
-    style = rng.choice(['clean', 'clean', 'clean', 'failing', 'failing', 'cyclic', 'selfref'])
-    k = rng.randint(2, len(SYN_PLUGINS))
+    style = rng.choice(['clean', 'clean', 'clean', 'clean', 'failing', 'failing', 'cyclic', 'selfref', 'dotted'])
+    k = rng.randint(2, 7)
     pool = rng.sample(SYN_PLUGINS, k)
     rank = {x: i for i, x in enumerate(rng.sample(pool, k))}
     world = [['Owner', 1, [], [], BUNDLED_CMDS.get('Owner', [])], ['Misc', 2, [], [], BUNDLED_CMDS.get('Misc', [])],
@@ -701,7 +713,11 @@ def gen_live(rng, bundled_ok):
 
     def variant(x):
         r = rng.random()
-        return x.lower() if r < 0.2 else x.upper() if r < 0.3 else x
+        x = x.lower() if r < 0.3 else x.upper() if r < 0.4 else x.swapcase() if r < 0.45 else x
+        if style == 'dotted' and rng.random() < 0.4 and x:
+            i = rng.randrange(len(x))
+            x = x[:i] + rng.choice(['.', '.*', '(', '\\w', '+', '?']) + x[i + 1:]   # regular-expression metacharacters (was finding C20.F25)
+        return x
     cands = pool + extra + ['Owner', 'Misc', 'Config', 'NoSuchPlugin']
     for _ in range(rng.randint(2, 12)):
         x = variant(rng.choice(pool if rng.random() < 0.75 else cands))
@@ -726,6 +742,11 @@ def gen_live(rng, bundled_ok):
         # `load` command of its own, is loaded)
         cfg['important'] = DEFAULT_IMPORTANT + rng.sample(pool, rng.randint(1, min(2, len(pool))))
     via = [rng.choice([0, 0, 1]) for _ in ops]
+    # the model's `files` is the world in os.listdir order (it decides matched_names[0] when a name with '.' matches several)
+    # (every synthetic plugin directory exists on disk whether or not this history uses it: all of them are in the world)
+    world += [[x, 0, [], [], ['cmd' + x.lower()]] for x in SYN_PLUGINS if x not in pool]
+    order = {n: i for i, n in enumerate(os.listdir(env()['pd']) + os.listdir(env()['pd2']))}
+    world = [sp for sp in world if sp[0] not in order] + sorted([sp for sp in world if sp[0] in order], key=lambda sp: order[sp[0]])
     return {'world': world, 'ops': ops, 'cfg': cfg, 'via': via}
 
 
@@ -750,6 +771,15 @@ def probe_bundled(e):
 
 
 CORPUS = [
+    # was C20.F25: names with regular-expression metacharacters matched other plugins (`load Alph.` registered Alpha, `load .*` the first
+    # directory entry, `load (` died with re.error); fixed: re.escape -> "No plugin named ..."
+    {'world': [['Owner', 1, [], [], []], ['Alpha', 0, [], [], ['cmdalpha']], ['Beta', 0, [], [], ['cmdbeta']]],
+     'ops': [['boot', 'Owner'], ['load', 'Alph.', 0, 0]]},
+    {'world': [['Owner', 1, [], [], []], ['Alpha', 0, [], [], ['cmdalpha']], ['Beta', 0, [], [], ['cmdbeta']]],
+     'ops': [['boot', 'Owner'], ['load', '.*', 0, 0]]},
+    {'world': [['Owner', 1, [], [], []], ['Alpha', 0, [], [], ['cmdalpha']], ['Beta', 0, [], [], ['cmdbeta']]],
+     'ops': [['boot', 'Owner'], ['load', '(', 0, 0], ['load', 'b.ta', 0, 0], ['reload', 'Alph.', 0, 0, 0], ['load', '\\w+', 0, 0],
+             ['load', 'Alpha', 0, 0], ['load', 'Alph.', 0, 0], ['reload', 'A.*', 0, 0, 0]]},
     # was C20.F23: self-reference dropped every constraint of S silently (fixed: rejected)
     {'world': [], 'ops': [['add', ['A0', 0, [], [], []]], ['add', ['A1', 0, [], [], []]], ['add', ['S', 0, ['S', 'A0', 'A1'], [], []]]]},
     # was C20.F22 (direct addCallback): cycle rejected but left appended (fixed: list unchanged)
@@ -772,6 +802,16 @@ CORPUS = [
     # was C20.F24: reload after a reload that failed with ImportError raised KeyError and lost the plugin (fixed)
     {'world': [['Owner', 1, [], [], []], ['Gamma', 0, [], [], ['cmdgamma']]],
      'ops': [['boot', 'Owner'], ['load', 'Gamma', 0, 0], ['reload', 'Gamma', 1, 0, 0], ['reload', 'gamma', 0, 0, 0]]},
+    # prefix families and case variants: the name lookup of loadPluginModule must be a FULL case-insensitive match
+    # (a seeded change turning re.search('(?i)^%s$') into re.match(name, x, re.I) was missed: no prefix-related names in the world)
+    {'world': [['Owner', 1, [], [], []], ['Misc', 2, [], [], []], ['Al', 0, [], [], ['cmdal']], ['Alpha', 0, [], [], ['cmdalpha']],
+               ['Qa', 0, [], [], ['cmdqa']], ['Qabx', 0, [], [], ['cmdqabx']], ['Ga', 0, [], [], ['cmdga']], ['Gamma', 0, [], [], ['cmdgamma']],
+               ['Ze', 0, [], [], ['cmdze']], ['Zeta', 0, [], [], ['cmdzeta']]],
+     'ops': [['boot', 'Owner'], ['boot', 'Misc'], ['load', 'alpha', 0, 0], ['load', 'QABX', 0, 0], ['load', 'al', 0, 0], ['load', 'qa', 0, 0],
+             ['reload', 'al', 0, 0, 0], ['reload', 'QA', 0, 0, 0], ['unload', 'aL', 0], ['load', 'ga', 0, 0], ['load', 'ze', 0, 0],
+             ['reload', 'ze', 0, 0, 0], ['load', 'gamma', 0, 0], ['reload', 'ga', 1, 0, 0], ['load', 'AL', 0, 0]]},
+    {'world': [['Owner', 1, [], [], []], ['Plugin', 0, [], [], []]],
+     'ops': [['boot', 'Owner'], ['load', 'plugin', 0, 0], ['reload', 'PLUGIN', 0, 0, 0]]},
     # two networks: unload/reload/load issued on one network must be seen by the other and by an Irc created later
     # (a seeded change rebinding self.callbacks in Irc.removeCallback was missed by a one-Irc harness)
     {'world': [['Owner', 1, [], [], []], ['Misc', 2, [], [], []], ['Alpha', 0, [], [], ['cmdalpha']], ['Beta', 0, [], [], ['cmdbeta']],
